@@ -7,6 +7,7 @@ func init() {
 		ID:    "C18",
 		Title: "Templates are addressable by relative name; a bad file fails loading cleanly",
 		Rules: []string{
+			"R-LAYOUT (tables / alias): Reserves, Inserts and Components of a parsed program are written by the parser only; ~ expands only as the first character",
 			"R-FORMAT: every printf-like call (fmt family, and the module functions that hand a parameter on as a format: fail.New, newError, ...) gets a constant format, or the caller's own format parameter",
 			"R-NILERR: every nil result of a parse function is preceded by a recorded error (a truncated file is not loaded silently)",
 			"R-LOADREC: the loader functions of the root package do not call each other in a cycle (loading is bounded by the files and the uses in them)",
@@ -18,6 +19,8 @@ func init() {
 		NotDecided:  "TODO",
 		Assumptions: trustedBase,
 		Run: func(m *Model, s *Sink) {
+			m.RunLayout(s, "R-LAYOUT")
+			m.RunProgramTables(s, "R-LAYOUT")                                            // a file is a layout because it declares reserves, also after linking
 			m.RunFormat(s, "R-FORMAT", m.reachableFns(m.Roots().Load, m.Roots().Render)) // no text of a template, a path or an error is used as a printf format
 			m.RunNilErr(s, "R-NILERR")                                                   // a file whose parse gives up must have recorded an error, or it is loaded as if it were complete
 			m.RunLoadRecursion(s, "R-LOADREC")
